@@ -143,6 +143,23 @@ CountOf(d, v) == Cardinality({j \in DOMAIN d : d[j] = v})
 ModeOf(d) == MinOf({v \in Range(d) : \A w \in Range(d) : CountOf(d, v) >= CountOf(d, w)})
 UniqueCounts(d) == LET u == SortSeqOf(Range(d)) IN <<u, [j \in DOMAIN u |-> CountOf(d, u[j])]>>
 
+\* ttsv1 / ttsv2 (xgi.utils.tensor): the adjacency tensor of rank r of a non-uniform hypergraph
+\* (Banerjee et al.) contracted with one vector a in all modes but one / but two.  Every edge with
+\* member set M contributes |M| / Banerjee(|M|, r) to each of its blow-ups, the r-tuples over M
+\* in which every member occurs; nodes are the positions 0..n-1, a is given as a sequence.
+ProdSeq(q) == FoldL(LAMBDA acc, x : acc * x, 1, q)
+BlowSum(M, prefix, r, a) ==
+  LET rest == r - Len(prefix)
+      T == {t \in [1..rest -> M] : Range(t) \cup Range(prefix) = M}
+  IN SumSet(LAMBDA t : ProdSeq([j \in 1..rest |-> a[t[j] + 1]]), T)
+TensorContract(mem, r, a, prefix) ==
+  RSumSeq([k \in DOMAIN mem |->
+            LET M == Range(mem[k]) IN
+            IF ~(Range(prefix) \subseteq M) THEN <<0, 1>>
+            ELSE Rat(Cardinality(M) * BlowSum(M, prefix, r, a), Banerjee(Cardinality(M), r))])
+TTSV1(mem, n, r, a) == [i \in 1..n |-> TensorContract(mem, r, a, <<i - 1>>)]
+TTSV2(mem, n, r, a) == [i \in 1..n |-> [j \in 1..n |-> TensorContract(mem, r, a, <<i - 1, j - 1>>)]]
+
 \* views restricted to a bunch, and their set algebra: always the network's ids, in the network's
 \* order, restricted to the resulting set; a bunch naming an unknown id is refused
 ViewIds(all, B) == Only(all, B)
